@@ -531,6 +531,156 @@ struct Case {
     if (changed) ctx.mark_nontrivial();
   }
 
+  // Puts the filtration cache of `st` in the chosen state before a prune; may grow `cur` (stale cache, +inf vertex) and
+  // may move the threshold onto the value where a partial / stale cache ends. Returns the threshold to use.
+  double prepare_cache_for_prune(ST& st, ref::Complex& cur, unsigned cache_state, double thr) {
+    auto largest_finite = [](const ref::Complex& c, bool* found) {
+      double m = -kInf;
+      *found = false;
+      for (auto& kv : c.s)
+        if (kv.second != kInf && kv.second != -kInf) {
+          m = std::max(m, kv.second);
+          *found = true;
+        }
+      return m;
+    };
+    auto fresh_label = [](const ref::Complex& c) {
+      ref::Vertex w = 0;
+      while (c.contains({w})) ++w;
+      return w;
+    };
+    auto revlex_before = [&st](SH a, SH b) {
+      auto ra = st.simplex_vertex_range(a);
+      auto rb = st.simplex_vertex_range(b);
+      return std::lexicographical_compare(ra.begin(), ra.end(), rb.begin(), rb.end());
+    };
+    if (cache_state == 0) {
+      st.clear_filtration();
+      ctx.desc << " cache: none\n";
+      ctx.hit("prune-cache:none");
+      return thr;
+    }
+    if (cache_state == 1) {
+      (void)st.filtration_simplex_range();
+      ctx.desc << " cache: complete\n";
+      ctx.hit("prune-cache:complete");
+      return thr;
+    }
+    bool found = false;
+    double top = largest_finite(cur, &found);
+    bool to_boundary = t.flip();
+    if (cache_state == 2) {
+      // initialize_filtration(ignore_infinite_values = true) with +inf simplices present
+      bool has_inf = false, has_finite = false;
+      for (auto& kv : cur.s) (kv.second == kInf ? has_inf : has_finite) = true;
+      if (!has_inf && t.flip()) {
+        ref::Vertex w = fresh_label(cur);
+        st.insert_simplex(stc::to_handles<ST>({w}), FV(kInf));
+        cur.s[{w}] = kInf;
+        has_inf = true;
+        ctx.desc << " insert {" << w << "}@inf\n";
+      }
+      if (!has_finite && !cur.empty() && ctx.excluded("C03-ignore-infinite-all")) {
+        ctx.hit("excluded:C03-ignore-infinite-all");
+        st.initialize_filtration();
+      } else {
+        st.initialize_filtration(true);
+        std::vector<Entry> finite = canonical_order(cur, true);
+        ref::Complex fin;
+        for (auto& e : finite) fin.s[e.first] = e.second;
+        check_order_once(st, fin, finite, "cache without the infinite simplices");
+      }
+      ctx.desc << " cache: initialize_filtration(ignore_infinite_values)\n";
+      ctx.hit(has_inf ? "prune-cache:ignore-infinite(some inf)" : "prune-cache:ignore-infinite(no inf)");
+      if (to_boundary && found) thr = top;  // the last cached value: the +inf simplices must still go
+      return thr;
+    }
+    if (cache_state == 3) {
+      // a cache computed before further insertions of larger values: stale, but prune is still a valid call
+      (void)st.filtration_simplex_range();
+      double big = (found ? top : 0.0) + 1.0;
+      if (t.chance(1, 4)) big = kInf;
+      ref::Vertex w = fresh_label(cur);
+      st.insert_simplex(stc::to_handles<ST>({w}), FV(big));
+      cur.s[{w}] = big;
+      ctx.desc << " cache: complete, then insert {" << w << "}@" << stc::fmt(big);
+      std::vector<ref::Vertex> vs = cur.vertices();
+      unsigned nedges = t.below(3);
+      for (unsigned i = 0; i < nedges && vs.size() > 1; ++i) {
+        ref::Vertex v = vs[t.below(uint32_t(vs.size()))];
+        if (v == w) continue;
+        ref::Simplex e = ref::make_simplex({v, w});
+        if (cur.contains(e)) continue;
+        double val = std::max(big, cur.value({v}));
+        st.insert_simplex(stc::to_handles<ST>(e), FV(val));
+        cur.s[e] = val;
+        ctx.desc << " " << ref::to_string(e) << "@" << stc::fmt(val);
+      }
+      ctx.desc << " (cache now stale)\n";
+      VF_ORACLE(cur.is_closed() && cur.is_monotone(), "stale-cache insertions broke the model");
+      ctx.hit("prune-cache:stale");
+      if (to_boundary && found) thr = top;  // the last value the stale cache knows: the later simplices must still go
+      return thr;
+    }
+    if (cache_state == 4) {
+      // custom order: dimension first, then value, then reverse lexicographic (a valid filtration order of f = dimension)
+      auto cmp = [&](SH a, SH b) {
+        int da = st.dimension(a), db = st.dimension(b);
+        if (da != db) return da < db;
+        if (!(st.filtration(a) == st.filtration(b))) return st.filtration(a) < st.filtration(b);
+        return revlex_before(a, b);
+      };
+      st.initialize_filtration(cmp, [](SH) { return false; });
+      std::vector<Entry> want;
+      for (auto& kv : cur.s) want.push_back(kv);
+      std::sort(want.begin(), want.end(), [](const Entry& a, const Entry& b) {
+        if (a.first.size() != b.first.size()) return a.first.size() < b.first.size();
+        return canonical_before(a, b);
+      });
+      auto&& r = st.filtration_simplex_range();
+      VF_CHECK(size_t(r.size()) == want.size(), "custom-order-size", "custom comparator: " << r.size() << " simplices listed");
+      size_t i = 0;
+      for (SH sh : r) {
+        VF_CHECK(stc::vertices_of(st, sh) == want[i].first, "custom-order", "custom comparator (dimension, value, revlex): position " << i);
+        ++i;
+      }
+      ctx.desc << " cache: initialize_filtration(by dimension then value, nothing ignored)\n";
+      ctx.hit("prune-cache:custom-comparator");
+      return thr;
+    }
+    // custom ignorer: everything above a cut value is left out (the rest is a sub-complex, hence a valid filtration)
+    double cut = top;
+    if (!cur.empty()) {
+      auto it = cur.s.begin();
+      std::advance(it, t.below(uint32_t(cur.size())));
+      cut = it->second;
+    }
+    auto cmp = [&](SH a, SH b) {
+      if (!(st.filtration(a) == st.filtration(b))) return st.filtration(a) < st.filtration(b);
+      return revlex_before(a, b);
+    };
+    size_t kept = 0;
+    for (auto& kv : cur.s) kept += kv.second <= cut;
+    if (kept == 0 && !cur.empty() && ctx.excluded("C03-ignore-infinite-all")) {
+      ctx.hit("excluded:C03-ignore-infinite-all");
+      st.initialize_filtration();
+      return thr;
+    }
+    FV cutv = FV(cut);
+    st.initialize_filtration(cmp, [&](SH sh) { return cutv < st.filtration(sh); });
+    {
+      ref::Complex sub;
+      for (auto& kv : cur.s)
+        if (kv.second <= cut) sub.s[kv.first] = kv.second;
+      std::vector<Entry> want = canonical_order(sub, false);
+      check_order_once(st, sub, want, "cache with a custom ignorer");
+    }
+    ctx.desc << " cache: initialize_filtration(default order, ignoring values > " << stc::fmt(cut) << ")\n";
+    ctx.hit("prune-cache:custom-ignorer");
+    if (to_boundary) thr = cut;  // the last cached value: the ignored simplices must still go
+    return thr;
+  }
+
   void run_prune() {
     ref::Complex c = draw_small_shape(true);
     std::vector<double> pal = draw_palette(true, false);
@@ -558,7 +708,11 @@ struct Case {
         thr = kInf;
       else
         thr = -kInf;
-      if (t.flip()) (void)st.filtration_simplex_range();  // a cache exists when the prune happens
+      // State of the filtration cache when the prune happens (the prune itself needs no cache and never reads it):
+      // none / complete / without the +inf simplices / stale (built before later insertions) / custom order or ignorer.
+      static const unsigned state_table[] = {0, 1, 3, 2, 4, 1, 3, 5};
+      unsigned cache_state = state_table[t.u8() % 8];
+      thr = prepare_cache_for_prune(st, cur, cache_state, thr);
       ctx.desc << " prune_above_filtration(" << stc::fmt(thr) << ")\n";
       ref::Complex want = cur;
       bool removed = want.prune_above_filtration(thr);
@@ -566,7 +720,14 @@ struct Case {
       bool r = st.prune_above_filtration(FV(thr));
       VF_CHECK(r == removed, "prune-return", "prune_above_filtration(" << stc::fmt(thr) << ") returned " << r << ", simplices removed: " << removed);
       stc::compare(st, want, ctx, "prune", "after prune_above_filtration(" + stc::fmt(thr) + ")");
-      // the prune drops the cache itself when it removed something; otherwise the old cache is still right
+      // the prune drops the cache itself when it removed something; otherwise a complete cache is still right.
+      // Partial, stale and custom caches are refreshed by the caller, as the documentation asks.
+      if (cache_state >= 2) {
+        if (t.flip())
+          st.clear_filtration();
+        else
+          st.initialize_filtration();
+      }
       std::vector<Entry> order = canonical_order(want, false);
       check_order_once(st, want, order, "after prune_above_filtration(" + stc::fmt(thr) + ")");
       if (removed && !want.empty()) nt = true;
